@@ -229,6 +229,10 @@ Definition ref_le (a b : ref) : bool :=
 
 Definition sort_refs (l : list ref) : list ref := isort ref_le l.
 
+(* time.Time.Compare: -1, 0, +1 (table entry of the translator for the comparator of VaryHeadersMatch) *)
+Definition time_compare (a b : Z) : Z :=
+  match a ?= b with Lt => -1 | Eq => 0 | Gt => 1 end.
+
 Fixpoint resolved_match (m : resolved) (h : headers) : option bool :=
   match m with
   | [] => Some true
